@@ -3,8 +3,9 @@ C11 — packing a directory is independent of the host's enumeration order.
 
 The theorems are about `Sqfs.FsTree` (Sqfs/Model/FsTree.lean), the model of
 dir_unix.c → dir_rec.c → dir_hl.c → dir_tree_iterator.c → glob.c:scan_directory → fstree.c → post_process.c.
-`sorted = true` is the model of the tree with fixes/C11-sorted-readdir.patch (native iterator sorts every
-directory); `sorted = false` is the code as pinned, for which the full statement is false (Sqfs/Witness/C11.lean).
+`sorted = true` is the code in /repo (the native iterator collects the names of a directory and `qsort`s them with
+`strcmp`, /repo 7ff9210); `sorted = false` is the iterator without that `qsort` call, for which the full statement is
+false (Sqfs/Witness/C11.lean) — the theorems about that older code are a frozen record in Sqfs/Proofs/C11Pinned/.
 -/
 import Sqfs.Proofs.FsTreeSorted
 
@@ -24,11 +25,67 @@ theorem insertSorted_sorted (n : TNode) (cs : List TNode) (hs : SortedNames (cs.
     SortedNames ((insertSorted n cs).map TNode.name) ∧ (insertSorted n cs).Perm (n :: cs) :=
   ⟨insertBy_sorted TNode.name n cs hs hnew, insertBy_perm TNode.name n cs⟩
 
+/-! ### the native iterator (dir_unix.c): `compare_names`, `read_names` -/
+
+/-- `compare_names` (= `strcmp` on the unsigned bytes of the two names) is a consistent strict total order — what ISO C
+requires of a `qsort` comparison function for the result to be defined: antisymmetric, zero exactly on equal names,
+transitive. -/
+theorem compare_names_total_order (a b c : HNode) :
+    (0 < compareNames a b ↔ compareNames b a < 0) ∧ (compareNames a b = 0 ↔ a.name = b.name) ∧
+    (compareNames a b < 0 → compareNames b c < 0 → compareNames a c < 0) := by
+  refine ⟨strcmpC_swap _ _, strcmpC_eq_zero_iff _ _, ?_⟩
+  intro h1 h2
+  exact (strcmpC_neg_iff _ _).mpr (nameLt_trans ((strcmpC_neg_iff _ _).mp h1) ((strcmpC_neg_iff _ _).mp h2))
+
+/-- `read_names` leaves `it->names` a permutation of what `readdir` returned, strictly ascending under
+`compare_names` — for a stream of any length (no bound, no batches), names of any length. -/
+theorem read_names_sorted (stream : List HNode) (hnd : (stream.map HNode.name).Nodup) :
+    (readNames true stream).Perm stream ∧ (readNames true stream).Pairwise (fun a b => compareNames a b < 0) := by
+  rw [readNames_true]
+  refine ⟨sortByName_perm_self stream, ?_⟩
+  have h := sortByName_sorted stream hnd
+  unfold SortedNames at h
+  rw [List.pairwise_map] at h
+  exact h.imp (fun hab => (strcmpC_neg_iff _ _).mpr hab)
+
+/-- The order `read_names` serves does not depend on the order in which `readdir` returned the entries. -/
+theorem read_names_perm {s₁ s₂ : List HNode} (hp : s₁.Perm s₂) (hnd : (s₁.map HNode.name).Nodup) :
+    readNames true s₁ = readNames true s₂ := by
+  rw [readNames_true, readNames_true]
+  exact sortByName_perm hp hnd
+
+/-- The model's choice of sorting algorithm is immaterial: **every** `qsort` that conforms to ISO C (returns a
+permutation that is non-descending under the comparison function) leaves exactly the list the model computes. -/
+theorem qsort_any_conforming (stream r : List HNode) (hnd : (stream.map HNode.name).Nodup) (hperm : r.Perm stream)
+    (hsorted : r.Pairwise (fun a b => compareNames a b ≤ 0)) : r = readNames true stream := by
+  rw [readNames_true]
+  have hndr : (r.map HNode.name).Nodup := (hperm.map HNode.name).nodup_iff.mpr hnd
+  have hr : r.Pairwise (fun a b => nameLt a.name b.name = true) := by
+    have hne : r.Pairwise (fun a b => a.name ≠ b.name) := by
+      rw [List.Nodup, List.pairwise_map] at hndr; exact hndr
+    refine (hsorted.and hne).imp ?_
+    rintro a b ⟨hle, hne⟩
+    apply (strcmpC_neg_iff _ _).mp
+    have : compareNames a b ≠ 0 := fun h0 => hne ((strcmpC_eq_zero_iff _ _).mp h0)
+    simp only [compareNames] at hle this
+    omega
+  have hs : (sortByName stream).Pairwise (fun a b => nameLt a.name b.name = true) := by
+    have h := sortByName_sorted stream hnd
+    unfold SortedNames at h
+    rwa [List.pairwise_map] at h
+  exact sorted_perm_unique (hperm.trans (sortByName_perm_self stream).symm) hr hs
+
+/-! ### the scan as a whole -/
+
 /-- **Full statement.**  For two enumerations of one directory forest that differ by a permutation inside each
-directory (`FPerm`, any depth), `gensquashfs --pack-dir` computes the same tree, the same inode numbering and the
-same file list (hence, with C02, the same bytes) — for every forest (multiply-linked files included), every
-option set (`-H`, `-o`, `-k`, forced ids, type masks, name patterns) and every `fnmatch`.
-Holds for the repaired native iterator. -/
+directory (`FPerm`, any depth, any number of entries, names of any length), the model of `gensquashfs --pack-dir` —
+`read_names` with `compare_names` in every directory, the recursive iterator, the hard-link filter, the
+`dir_tree_iterator` filters, `scan_directory` with `fstree_add_generic`, `fstree_post_process` — computes the same tree,
+the same inode numbering and the same file list, for every forest (multiply-linked files included), every option set
+(`-H`, `-o`, `-k`, forced ids, type masks, name patterns) and every `fnmatch`.
+How the proof goes: `read_names` makes the enumeration that reaches the layers above a function of the *set* of entries
+of each directory (`read_names_perm`, lifted to forests by `nativeOrder_sorted_fperm`); everything above is a function of
+that enumeration. -/
 theorem scan_perm_invariant {e₁ e₂ : List HNode} (h : FPerm e₁ e₂) (hwf : WFList e₁)
     (d : Defaults) (cfg : Cfg) (fnm : Fnm) (rootDev : Nat) :
     packDir true d cfg fnm rootDev e₁ = packDir true d cfg fnm rootDev e₂ := by
@@ -43,45 +100,14 @@ theorem scan_perm_invariant_glob {e₁ e₂ : List HNode} (h : FPerm e₁ e₂) 
   unfold globInto scanInto
   rw [nativeOrder_sorted_fperm h hwf]
 
-/-- **The code as pinned** (`sorted = false`: readdir order reaches the hard-link filter unchanged).
-The full statement is false for it (`Sqfs.Witness.C11.scan_order_dependent`); what is missing is exactly the case
-"some file has more than one name inside the scanned forest and hard-link detection is on".  Outside that case —
-`-H`/`-nohardlinks`, or pairwise different `(st_dev, st_ino)` of the non-directories — tree, inode numbering and
-file list do not depend on the enumeration, for every forest, every option set and every `fnmatch`. -/
-theorem scan_perm_invariant_partial {e₁ e₂ : List HNode} (h : FPerm e₁ e₂) (hwf : WFList e₁)
-    (d : Defaults) (cfg : Cfg) (fnm : Fnm) (rootDev : Nat)
-    (hno : hasFlag cfg.flags Consts.dirScanNoHardlinks = true ∨ NoMultiLink e₁) :
-    packDir false d cfg fnm rootDev e₁ = packDir false d cfg fnm rootDev e₂ := by
-  unfold packDir
-  rw [scanInto_false_fperm d cfg fnm rootDev h hwf hno]
-
-/-- … and the same for a `glob` line on top of any tree built so far. -/
-theorem scan_perm_invariant_glob_partial {e₁ e₂ : List HNode} (h : FPerm e₁ e₂) (hwf : WFList e₁)
-    (d : Defaults) (cfg : Cfg) (fnm : Fnm) (rootDev : Nat) (target : Path) (tree : TNode) (links : List Path)
-    (hno : hasFlag cfg.flags Consts.dirScanNoHardlinks = true ∨ NoMultiLink e₁) :
-    globInto false d cfg fnm rootDev e₁ target tree links = globInto false d cfg fnm rootDev e₂ target tree links := by
-  unfold globInto
-  cases mkdirImplicit d target tree with
-  | none => rfl
-  | some t1 =>
-    simp only
-    cases lookup t1 target with
-    | none => rfl
-    | some r =>
-      simp only
-      split
-      · rfl
-      · exact scanInto_false_fperm d cfg fnm rootDev h hwf hno t1 links
-
-/-- The repair does not change what the pinned code computes where that was well defined: outside the multiply-linked
-case the repaired and the pinned scan agree on every enumeration (so no image that did not depend on the readdir
-order changes a byte — the constraint of DESIGN.md §6 on a repair of D16). -/
-theorem repair_conservative (e : List HNode) (hwf : WFList e) (d : Defaults) (cfg : Cfg) (fnm : Fnm) (rootDev : Nat)
-    (hno : hasFlag cfg.flags Consts.dirScanNoHardlinks = true ∨ NoMultiLink e) :
-    packDir true d cfg fnm rootDev e = packDir false d cfg fnm rootDev e := by
-  have h := scan_perm_invariant_partial (fperm_nativeOrder e) hwf d cfg fnm rootDev hno
-  rw [h]
-  rfl
+/-- Data placement: the sequence in which `pack_files` hands the regular files (with their block-processor flags) to
+the block processor — the file list, after `fstree_sort_files` when a sort file (`-S`) is given — is the same for both
+enumerations, for every sort file. -/
+theorem pack_order_invariant {e₁ e₂ : List HNode} (h : FPerm e₁ e₂) (hwf : WFList e₁)
+    (d : Defaults) (cfg : Cfg) (fnm : Fnm) (rootDev : Nat) (sortfile : Option (List SortRule)) :
+    packOrder true d cfg fnm rootDev e₁ sortfile = packOrder true d cfg fnm rootDev e₂ sortfile := by
+  unfold packOrder
+  rw [scan_perm_invariant h hwf]
 
 /-- Inode numbers and the file list are functions of the (sorted) tree alone: `fstree_post_process` — hard-link
 resolution with its link counts, `alloc_inode_num_dfs`, `reorder_hard_links`, `file_list_dfs` — gives the same result
